@@ -223,6 +223,8 @@ func (m *Manager) registerConnection(conn *Connection) {
 
 // handleDisconnect is called when a connection is closed.
 func (m *Manager) handleDisconnect(conn *Connection, err error) {
+	verifhook.Point("peer.disconnect.enter", m.cfg.LocalID, conn, err)
+	defer verifhook.Point("peer.disconnect.exit", m.cfg.LocalID, conn)
 	m.mu.Lock()
 	existing, ok := m.peers[conn.RemoteID]
 	if ok && existing != conn {
